@@ -73,7 +73,7 @@ for p in props:
 m = {
     "version": 1,
     "setup_cmd": "bin/setup",
-    "hooks": {"guard": "verif", "enable": "go build -tags verif (harness module replaces go.lstv.dev/util => /repo)",
+    "hooks": {"guard": "verif", "enable": "go build -tags verif — used for C19's hooked oracles only (uu.VerifSetRandomSource); every other check, and a second run of C19, builds the harness WITHOUT the tag, i.e. against the library as it ships (harness module replaces go.lstv.dev/util => /repo)",
               "baseline_off_cmd": "cd /repo && go test -vet=off -count=1 ./...", "source_commits": [hook_commit], "add_only": True},
     "engines": [{"name": "lean4-model+correspondence", "path": "/verif/lean", "serves_properties": sorted(CLAIMED),
                  "kind_free_text": "Lean 4 model + theorems (lake), fact extractor (Go, go/parser), Go harness (correspondence + direct oracles), Python orchestrator bin/check"}],
